@@ -222,7 +222,7 @@ func runPedersen(t *core.Tape, tier string, info *core.RunInfo, protocol bool) *
 	kfGate := t.Bool("cfg.kf", 120) || os.Getenv("VERIF_KF_ALWAYS") != ""
 	skip := map[string]bool{}
 	if protocol && w.fast && !kfGate {
-		skip["deal-equivocate"], skip["resp-conflicting"] = true, true
+		skip["deal-equivocate"], skip["resp-conflicting"], skip["resp-complaint-and-violating"] = true, true, true
 	}
 	// faulty parties within the tolerated bounds
 	if !honestClass {
